@@ -229,6 +229,17 @@ def p_extension(P, c, args, dt):
     return some(Opaque('OsStr', pystr(name[k + 1:] if c.method == 'extension' else name[:k])))
 
 
+@model('std::path::Path::with_extension')
+def p_with_extension(P, c, args, dt):
+    sp = _cb(args[0])
+    ext = bytes(concrete_bytes(list(path_str(args[1]).bytes()))).decode()
+    head, sep, name = sp.rpartition('/')
+    k = name.rfind('.')
+    stem = name[:k] if k > 0 else name
+    new = stem + ('.' + ext if ext else '')
+    return mk_pathbuf(list((head + sep + new).encode()))
+
+
 @model('std::path::Path::starts_with')
 def p_starts_with(P, c, args, dt):
     a = _components(_cb(args[0]))
